@@ -7,7 +7,7 @@ use std::io::{BufRead, Write};
 use std::ops::Deref;
 use std::sync::atomic::{AtomicU64, Ordering};
 use std::sync::{Arc, Mutex};
-use std::time::Duration;
+use std::time::{Duration, Instant};
 
 use nuts_rs::rand::rngs::ChaCha8Rng;
 use nuts_rs::rand::{Rng, SeedableRng};
@@ -40,6 +40,7 @@ pub struct TestModel {
     pub announce: bool,
     /// every chain starts from the same fixed point (the chains then differ only through their own random streams)
     pub const_init: bool,
+    pub fatal_sleep_ms: u64,
 }
 
 impl Model for TestModel {
@@ -61,6 +62,7 @@ impl Model for TestModel {
         }
         if self.announce {
             lp.announce = Some(chain);
+            lp.fatal_sleep_ms = self.fatal_sleep_ms;
         }
         Ok(CpuMath::new(lp))
     }
@@ -234,6 +236,9 @@ pub fn reference_chain<S: Settings>(settings: &S, model: &TestModel, chain_id: u
     (pos_h, rec_h)
 }
 
+/// value of the fault counter when the current scenario started
+static FATAL_BASE: std::sync::atomic::AtomicU64 = std::sync::atomic::AtomicU64::new(0);
+
 fn uemit(ev: J) {
     verif::emit("sampler", move || ev);
 }
@@ -251,6 +256,16 @@ fn run_user<F: Send + 'static>(
         let name = op["op"].as_str().unwrap_or("").to_string();
         match name.as_str() {
             "sleep" => std::thread::sleep(Duration::from_micros(op["us"].as_u64().unwrap_or(100))),
+            "wait_fatal" => {
+                // until a density has announced an unrecoverable fault in this run (at most `ms`)
+                let base = op["base"].as_u64().unwrap_or(0);
+                let t0 = Instant::now();
+                while crate::density::FATAL_FIRED.load(std::sync::atomic::Ordering::SeqCst) <= base + FATAL_BASE.load(std::sync::atomic::Ordering::SeqCst)
+                    && t0.elapsed() < Duration::from_millis(op["ms"].as_u64().unwrap_or(3000))
+                {
+                    std::thread::sleep(Duration::from_micros(200));
+                }
+            }
             "pause" | "resume" | "flush" => {
                 uemit(json!({"ev": "u_call", "cmd": name}));
                 let r = match name.as_str() {
@@ -371,6 +386,7 @@ fn run_one<S: Settings>(sc: &J) -> Vec<J> {
         last_chain: Mutex::new(HashMap::new()),
         announce: true,
         const_init: sc["const_init"] == true,
+        fatal_sleep_ms: sc["fatal_sleep_ms"].as_u64().unwrap_or(0),
     };
     let total = settings.hint_num_tune() + settings.hint_num_draws();
     // sequential reference (no faults, no delays): Full(i)
@@ -430,6 +446,7 @@ fn run_one<S: Settings>(sc: &J) -> Vec<J> {
             }),
             rate: std::time::Duration::from_micros(us),
         });
+        FATAL_BASE.store(crate::density::FATAL_FIRED.load(std::sync::atomic::Ordering::SeqCst), std::sync::atomic::Ordering::SeqCst);
         Sampler::new(model, settings, rec_cfg, num_cores, callback)
     }));
     let mut result = J::Null;
